@@ -415,3 +415,174 @@ func (c *c01ctx) ratioSignForms(a *core.Alg, ratio ssa.Value) []core.Poly {
 	}
 	return forms
 }
+
+// ---- round 11: "the value of parameter prm of root", seen from root and from the closures it creates ----
+
+// c01ClosureFamily is root together with every function literal created (transitively) by it.
+func c01ClosureFamily(root *ssa.Function) []*ssa.Function {
+	fam := []*ssa.Function{root}
+	seen := map[*ssa.Function]bool{root: true}
+	for i := 0; i < len(fam); i++ {
+		for _, b := range fam[i].Blocks {
+			for _, in := range b.Instrs {
+				if mc, ok := in.(*ssa.MakeClosure); ok {
+					if g, ok := mc.Fn.(*ssa.Function); ok && !seen[g] {
+						seen[g] = true
+						fam = append(fam, g)
+					}
+				}
+			}
+		}
+	}
+	return fam
+}
+
+// c01CellOf resolves an address to the local variable (Alloc of a family member) it denotes:
+// the Alloc itself, or a free variable every creation site of its closure binds to one Alloc.
+func c01CellOf(addr ssa.Value, fam []*ssa.Function) *ssa.Alloc {
+	for depth := 0; depth < 6; depth++ {
+		switch x := addr.(type) {
+		case *ssa.Alloc:
+			return x
+		case *ssa.FreeVar:
+			g := x.Parent()
+			idx := -1
+			for k, fv := range g.FreeVars {
+				if fv == x {
+					idx = k
+				}
+			}
+			var bound ssa.Value
+			for _, f := range fam {
+				for _, b := range f.Blocks {
+					for _, in := range b.Instrs {
+						mc, ok := in.(*ssa.MakeClosure)
+						if !ok || mc.Fn != ssa.Value(g) || idx < 0 || idx >= len(mc.Bindings) {
+							continue
+						}
+						if bound != nil && bound != mc.Bindings[idx] {
+							return nil
+						}
+						bound = mc.Bindings[idx]
+					}
+				}
+			}
+			if bound == nil {
+				return nil
+			}
+			addr = bound
+		default:
+			return nil
+		}
+	}
+	return nil
+}
+
+// c01CellHoldsOnly reports whether the local variable cell holds val for its whole life: its one
+// store, made by its own function, stores val; apart from that the cell is only loaded – by its
+// function or, through by-reference capture, by closures of the family – and never escapes.
+func c01CellHoldsOnly(cell *ssa.Alloc, val ssa.Value, fam []*ssa.Function) bool {
+	stores := 0
+	var uses func(addr ssa.Value, depth int) bool
+	uses = func(addr ssa.Value, depth int) bool {
+		if depth > 6 || addr.Referrers() == nil {
+			return false
+		}
+		for _, ref := range *addr.Referrers() {
+			switch x := ref.(type) {
+			case *ssa.DebugRef:
+			case *ssa.UnOp:
+				if x.Op != token.MUL {
+					return false
+				}
+			case *ssa.Store:
+				if x.Addr != addr || addr != ssa.Value(cell) || core.Strip(x.Val) != val {
+					return false // written through a capture, stored away, or given another value
+				}
+				stores++
+			case *ssa.MakeClosure:
+				g, ok := x.Fn.(*ssa.Function)
+				if !ok {
+					return false
+				}
+				for j, b := range x.Bindings {
+					if b == addr {
+						if j >= len(g.FreeVars) || !uses(g.FreeVars[j], depth+1) {
+							return false
+						}
+					}
+				}
+			default:
+				return false
+			}
+		}
+		return true
+	}
+	return uses(cell, 0) && stores == 1
+}
+
+// c01ValueOfParam matches the value of root's parameter prm wherever the family can see it:
+//   - prm itself (through spill slots, conversions: isValueOf);
+//   - a load of the local cell prm was spilled to because a closure captures it – in root or, via
+//     the free variable, inside the closure – provided the cell holds nothing else (c01CellHoldsOnly);
+//   - a parameter of a function literal of the family that is only ever called (or deferred) where it
+//     is created, with such a value in that position.
+func c01ValueOfParam(root *ssa.Function, prm *ssa.Parameter) func(ssa.Value) bool {
+	fam := c01ClosureFamily(root)
+	var match func(v ssa.Value, depth int) bool
+	match = func(v ssa.Value, depth int) bool {
+		if depth > 4 {
+			return false
+		}
+		v = core.Strip(v)
+		if isValueOf(prm)(v) {
+			return true
+		}
+		if ld, ok := v.(*ssa.UnOp); ok && ld.Op == token.MUL {
+			if cell := c01CellOf(ld.X, fam); cell != nil && cell.Parent() == root {
+				return c01CellHoldsOnly(cell, prm, fam)
+			}
+			return false
+		}
+		gp, ok := v.(*ssa.Parameter)
+		if !ok || gp.Parent() == root || gp.Parent().Parent() == nil {
+			return false
+		}
+		g := gp.Parent()
+		idx := -1
+		for k, q := range g.Params {
+			if q == gp {
+				idx = k
+			}
+		}
+		sites := 0
+		for _, f := range fam {
+			for _, b := range f.Blocks {
+				for _, in := range b.Instrs {
+					mc, ok := in.(*ssa.MakeClosure)
+					if !ok || mc.Fn != ssa.Value(g) {
+						continue
+					}
+					for _, ref := range *mc.Referrers() {
+						if _, isDbg := ref.(*ssa.DebugRef); isDbg {
+							continue
+						}
+						ci, ok := ref.(ssa.CallInstruction)
+						if !ok || ci.Common().IsInvoke() || ci.Common().Value != ssa.Value(mc) || idx < 0 || idx >= len(ci.Common().Args) {
+							return false // the literal is kept as a value: its callers are not known
+						}
+						if _, isGo := ref.(*ssa.Go); isGo {
+							return false
+						}
+						if !match(ci.Common().Args[idx], depth+1) {
+							return false
+						}
+						sites++
+					}
+				}
+			}
+		}
+		return sites > 0
+	}
+	return func(v ssa.Value) bool { return match(v, 0) }
+}
